@@ -32,6 +32,16 @@ def warm():
 def make_plan(run_seed: int, profile: Dict[str, Any]) -> Dict[str, Any]:
     rng = random.Random(run_seed)
     family, grammar = make_grammar(rng)
+    # A second grammar of the same family: same nonterminal names, different
+    # expansions.  Cases alternate between the two, so that helper objects for
+    # different grammars share the process (and its global caches).
+    grammars = [grammar]
+    if rng.random() < 0.5:
+        for _ in range(5):
+            _, g2 = make_grammar(rng, family)
+            if g2 != grammar:
+                grammars.append(g2)
+                break
     focus = profile.get("focus", "both")
     kinds = []
     if focus in ("C12", "both"):
@@ -46,10 +56,11 @@ def make_plan(run_seed: int, profile: Dict[str, Any]) -> Dict[str, Any]:
                 "seed": rng.randrange(1 << 30),
                 "strategy": rng.choice(STRATS),
                 "prng_seed": rng.randrange(1 << 30),
+                "g": rng.randrange(len(grammars)),
             }
         )
     return {"engine": ENGINE, "run_seed": run_seed, "phase": "choices", "family": family,
-            "grammar": grammar, "ops": cases, "faults": [], "case_work": profile.get("case_work", 600_000)}
+            "grammar": grammar, "grammars": grammars, "ops": cases, "faults": [], "case_work": profile.get("case_work", 600_000)}
 
 
 # ------------------------------------------------------------------------- input trees
@@ -282,7 +293,8 @@ def execute(plan: Dict[str, Any]) -> Dict[str, Any]:
     counters: Dict[str, int] = {}
     strategies: Dict[str, int] = {}
     h = hashlib.sha256()
-    graph = gg.GrammarGraph.from_grammar(g)
+    grammars = plan.get("grammars") or [g]
+    graphs = [gg.GrammarGraph.from_grammar(x) for x in grammars]
     work = WorkCounter(cap=None)
     draws = 0
     with Quiet():
@@ -294,7 +306,8 @@ def execute(plan: Dict[str, Any]) -> Dict[str, Any]:
                 undo = install_prng(rnd)
                 work.extend(plan.get("case_work", 600_000))
                 try:
-                    v = run_case(case, g, graph, counters)
+                    gi = case.get("g", 0) % len(grammars)
+                    v = run_case(case, grammars[gi], graphs[gi], counters)
                     if work.tripped:
                         record["inconclusive"].append(f"case_work_cap:{case['kind']}")
                         v = None
